@@ -630,6 +630,43 @@ def run(index, rep, tier):
         rep.rule("R05.13", "the frequencies are over the trees that were accepted: a tree is validated before anything of it is counted (C06 R06.11)")
         rep.floor("R05.13", "borrowed obligations", 3, borrow(index, rep, "C06", {"R06.11"}, "R05.13"))
 
+    # ---- R05.14 a component kept between calls is configured by every call
+    with rep.section("R05.14"):
+        rep.rule("R05.14", "a component kept between calls is configured by every call: where a method that takes per-call options (`**kwargs`) uses a helper object it creates on demand and keeps on self (`if self.x is None: self.x = K()`), every path to the use passes `self.x.configure(**kwargs)` (or the creation from those kwargs) - configure() resets every option it is not given, so skipping it when no option is passed leaves the previous call's settings in force (support as percentages, node labels) for a caller who asked for the defaults")
+        n14 = 0
+        for fi in index.functions_in_module(TCM):
+            if fi.cls is None or fi.node.args.kwarg is None:
+                continue
+            kw = fi.node.args.kwarg.arg
+            lazy = {}
+            for st in walk_no_nested(fi.node):
+                if isinstance(st, ast.If):
+                    cp = compare_parts(st.test)
+                    if cp and cp[1] == "Is" and is_none(cp[2]) and isinstance(cp[0], ast.Attribute) and norm(cp[0].value) == "self":
+                        a = cp[0].attr
+                        if any(isinstance(x, ast.Assign) and norm(x.targets[0]) == "self." + a for x in ast.walk(st)):
+                            lazy[a] = st
+            if not lazy:
+                continue
+            g = cfg_of(fi)
+            for a in lazy:
+                def passes_options(n, a=a):
+                    for c in node_calls(n):
+                        star = any(k.arg is None and norm(k.value) == kw for k in c.keywords)
+                        if star and isinstance(c.func, ast.Attribute) and c.func.attr == "configure" and norm(c.func.value) == "self." + a:
+                            return True
+                    x = n.ast
+                    if isinstance(x, ast.Assign) and norm(x.targets[0]) == "self." + a and isinstance(x.value, ast.Call) and any(k.arg is None and norm(k.value) == kw for k in x.value.keywords):
+                        return True
+                    return False
+                uses = [n for n in g.nodes if any(isinstance(c.func, ast.Attribute) and norm(c.func.value) == "self." + a and c.func.attr != "configure" for c in node_calls(n))]
+                for u in uses:
+                    n14 += 1
+                    ok = g.dominated_by(u, passes_options, follow_exc=False)
+                    rep.check(ok, "R05.14", fi.qualname, "`self.%s` used without this call's options" % a, fn_where(fi, u.ast), "%s: self.%s is configured with **%s before it is used" % (fi.name, a, kw),
+                              "%s keeps `self.%s` between calls and can reach `%s` without having handed it this call's `**%s`: configure() sets every option it is not given back to its default, so skipping it (for instance when no option is passed) leaves the settings of the PREVIOUS call in force - after a consensus tree was asked for with support as percentages, a plain summarize_splits_on_tree(tree) labels the nodes with 75.0 instead of 0.75" % (fi.qualname, a, norm(node_calls(u)[0])[:50] if node_calls(u) else "", kw))
+        rep.floor("R05.14", "uses of components kept between calls in methods taking per-call options", 1, n14)
+
 
 def _weight_rule_text(fi, name):
     """Normalised text of the if/else that defines the per-tree weight."""
